@@ -136,7 +136,7 @@ Lemma PInv_out_not_free a p idx : PInv a -> In p (a_out a) -> ~ In p (tabfree a 
 Proof. intros (_ & _ & P3 & _) H C. apply P3 in C. tauto. Qed.
 
 (* GivMMFreeList::allocate / desallocate / resize preserve the discipline *)
-Definition Pool_step_stmt := forall fixed0 tab a sz,
+Definition Pool_step_stmt := forall fixed0 fixr tab a sz,
   PInv a ->
   (forall a1 op d, fl_allocate fixed0 tab a sz = (a1, op, d) ->
      PInv a1 /\ match op with
@@ -145,11 +145,25 @@ Definition Pool_step_stmt := forall fixed0 tab a sz,
   /\ (forall p, In p (a_out a) ->
         PInv (fst (fl_desallocate a (Some p))) /\ ~ In p (a_out (fst (fl_desallocate a (Some p))))
         /\ snd (fl_desallocate a (Some p)) = None)
-  /\ (forall src old a1 op d, fl_resize tab a src old sz = (a1, op, d) -> PInv a1).
+  /\ (forall src old a1 op d, fl_resize fixr tab a src old sz = (a1, op, d) -> PInv a1).
 
 Lemma Pool_step_proof : Pool_step_stmt.
 Proof.
-  intros fixed0 tab a sz P. split; [|split].
+  intros fixed0 fixr tab a sz P.
+  assert (AL : forall f0 a1 op d, fl_allocate f0 tab a sz = (a1, op, d) ->
+     PInv a1 /\ match op with
+                | Some p => ~ In p (a_out a) /\ a_out a1 = p :: a_out a /\ (forall idx, ~ In p (tabfree a1 idx))
+                | None => a1 = a end).
+  { intros fixed1 a1 op d. unfold fl_allocate.
+    destruct (fixed1 && (sz =? 0)%Z); [intros H; injection H as <- <- _; auto|].
+    destruct (sz =? 0)%Z; [intros H; injection H as <- <- _; auto|].
+    destruct ((sz <=? 32)%Z && negb match tabfree a (Z.to_nat (sz - 1)) with [] => true | _ :: _ => false end).
+    + destruct (pop_or_malloc a (Z.to_nat (sz - 1))) as [a2 q] eqn:E. intros H; injection H as <- <- _.
+      destruct (pop_spec _ _ _ _ E P) as (A & B & C & _ & D). auto.
+    + intros H. destruct op as [p|].
+      * destruct (allocate_pop _ _ _ _ _ _ H) as [idx E]. destruct (pop_spec _ _ _ _ E P) as (A & B & C & _ & D). auto.
+      * apply allocate_none in H. subst; auto. }
+  split; [|split].
   - intros a1 op d. unfold fl_allocate.
     destruct (fixed0 && (sz =? 0)%Z); [intros H; injection H as <- <- _; auto|].
     destruct (sz =? 0)%Z; [intros H; injection H as <- <- _; auto|].
@@ -166,7 +180,8 @@ Proof.
       intros H. destruct op as [q|].
       * destruct (allocate_pop _ _ _ _ _ _ H) as [idx E]. destruct (pop_spec _ _ _ _ E P) as (A & _). auto.
       * apply allocate_none in H. subst; auto.
-    + intros H. destruct op as [q|].
+    + destruct fixr; [intros H; destruct (AL _ _ _ _ H) as [A _]; exact A|].
+      intros H. destruct op as [q|].
       * destruct (allocate_pop _ _ _ _ _ _ H) as [idx E]. destruct (pop_spec _ _ _ _ E P) as (A & _). auto.
       * apply allocate_none in H. subst; auto.
 Qed.
@@ -388,8 +403,16 @@ Proof.
   - intros q Hq. rewrite !rcnt_set, Nat.eqb_refl. case_pq p q; [rewrite (C p Hq); lia|apply C; auto].
 Qed.
 
-Lemma resize_spec tab r i old new r1 op d : RInv r -> i < length (rs_q r) ->
-  rc_resize tab r (getq r i) old new = (r1, op, d) ->
+Lemma allocate_none_df tab a sz a1 d : _allocate tab a sz = (a1, None, d) -> d <> None.
+Proof.
+  unfold _allocate. destruct (search_binary tab sz) as [k|]; [|intros H; injection H as _ <-; discriminate].
+  destruct (k <? 0)%Z; [intros H; injection H as _ <-; discriminate|]. destruct (pop_or_malloc a (Z.to_nat k)). discriminate.
+Qed.
+
+(* fixrc = true: the repaired body (allocate first); fixrc = false: the body as it is, which is only well behaved when the
+   request is served (d = None) *)
+Lemma resize_spec fixrc tab r i old new r1 op d : RInv r -> i < length (rs_q r) ->
+  rc_resize fixrc tab r (getq r i) old new = (r1, op, d) -> (fixrc = true \/ d = None) ->
   RInv (setq r1 i op) /\ length (rs_q (setq r1 i op)) = length (rs_q r).
 Proof.
   intros I Hi. unfold rc_resize. destruct (getq r i) as [p|] eqn:Eq.
@@ -397,9 +420,9 @@ Proof.
     assert (F : forall r0, r0 = rc_desallocate r (Some p) ->
        match _allocate tab (rs_a r0) (new + 8)%Z with
        | (a1, Some t, d0) => (set_cnt (set_a r0 a1) t 1%Z, Some t, d0)
-       | (_, None, d0) => (r, Some p, d0)
-       end = (r1, op, d) -> RInv (setq r1 i op) /\ length (rs_q (setq r1 i op)) = length (rs_q r)).
-    { intros r0 E0. destruct (_allocate tab (rs_a r0) (new + 8)%Z) as [[a1 [t|]] d0] eqn:EA; intros H; injection H as <- <- _.
+       | (_, None, d0) => (if fixrc then r else r0, Some p, d0)
+       end = (r1, op, d) -> (fixrc = true \/ d = None) -> RInv (setq r1 i op) /\ length (rs_q (setq r1 i op)) = length (rs_q r)).
+    { intros r0 E0. destruct (_allocate tab (rs_a r0) (new + 8)%Z) as [[a1 [t|]] d0] eqn:EA; intros H; injection H as <- <- <-; intros SV.
       - destruct (allocate_pop _ _ _ _ _ _ EA) as [idx EP].
         pose proof (RI_take_g r i [] I Hi) as I1. rewrite Eq in I1.
         pose proof (RI_desalloc _ _ _ I1) as I2. rewrite desalloc_setq in I2. rewrite <- E0 in I2.
@@ -412,29 +435,38 @@ Proof.
           * rewrite len_setq. cbn [set_cnt set_a rs_q]. lia.
           * apply getq_setq. cbn [set_cnt set_a rs_q]. lia.
         + rewrite len_setq. cbn [set_cnt set_a rs_q]. lia.
-      - rewrite <- Eq, setq_same. auto. }
+      - destruct SV as [->|DN]; [|exfalso; exact (allocate_none_df _ _ _ _ _ EA DN)].
+        rewrite <- Eq, setq_same. auto. }
     destruct (Z.eqb_spec (rcnt r p) 1) as [E1|NE1].
     + destruct (new <=? old)%Z; [intros H; injection H as <- <- _; rewrite <- Eq, setq_same; auto|].
       destruct (8 + new <=? nth (cls (rs_a r) p) tab 0%Z)%Z; [intros H; injection H as <- <- _; rewrite <- Eq, setq_same; auto|].
       apply F; auto.
     + rewrite <- (desalloc_shared r p NE1). apply F; auto.
-  - intros H. pose proof (rc_allocate_spec tab r new [] r1 op d I H) as S. destruct op as [t|].
+  - intros H _. pose proof (rc_allocate_spec tab r new [] r1 op d I H) as S. destruct op as [t|].
     + destruct S as [I1 Eq1]. split; [apply RI_put; auto|rewrite len_setq]; try congruence.
       unfold getq. rewrite Eq1. exact Eq.
     + subst r1. rewrite <- Eq, setq_same. auto.
 Qed.
 
-Lemma rstep_spec tab r o : RInv r -> rop_target o < length (rs_q r) ->
-  RInv (fst (rstep tab r o)) /\ length (rs_q (fst (rstep tab r o))) = length (rs_q r).
+(* the step is well behaved: the repaired resize, or no request of the step was refused *)
+Definition rok (fixrc : bool) (tab : list Z) (r : rstate) (o : rop) : Prop := fixrc = true \/ rstep_df fixrc tab r o = None.
+Fixpoint rclean (fixrc : bool) (tab : list Z) (r : rstate) (ops : list rop) : Prop :=
+  match ops with [] => True | o :: t => rok fixrc tab r o /\ rclean fixrc tab (fst (rstep fixrc tab r o)) t end.
+Lemma rclean_fixed tab r ops : rclean true tab r ops.
+Proof. revert r; induction ops as [|o t IH]; intros r; cbn; auto. split; [left; auto|apply IH]. Qed.
+
+Lemma rstep_spec fixrc tab r o : RInv r -> rop_target o < length (rs_q r) -> rok fixrc tab r o ->
+  RInv (fst (rstep fixrc tab r o)) /\ length (rs_q (fst (rstep fixrc tab r o))) = length (rs_q r).
 Proof.
-  intros I Hi. destruct o; cbn [rop_target rstep] in *.
+  intros I Hi OK. destruct o; cbn [rop_target rstep] in *.
   - destruct (rc_allocate tab r s) as [[r1 [p|]] d] eqn:E; cbn [fst]; auto.
     destruct (rc_allocate_spec tab r s [] r1 (Some p) d I E) as [I1 Eq1].
     split; [apply RI_replace; auto; congruence|rewrite len_setq, len_desalloc; congruence].
   - cbn [fst]. apply assign_spec; auto. destruct (getq r j) eqn:E; eauto.
   - cbn [fst]. apply assign_spec; auto.
   - cbn [fst]. split; [apply RI_clear; auto|rewrite len_setq, len_desalloc; auto].
-  - destruct (rc_resize tab r (getq r i) old new) as [[r1 op] d] eqn:E. cbn [fst]. eapply resize_spec; eauto.
+  - unfold rok in OK. cbn [rstep_df] in OK.
+    destruct (rc_resize fixrc tab r (getq r i) old new) as [[r1 op] d] eqn:E. cbn [fst snd] in *. eapply resize_spec; eauto.
   - unfold rc_incrc, rc_decrc, rc_getrc. destruct (getq r i) as [p|]; cbn [fst]; auto.
     split; [apply probe_spec; auto|reflexivity].
 Qed.
@@ -447,31 +479,36 @@ Proof.
   split; [intros ? []|]. split; [|reflexivity]. intros p. rewrite Z0. cbn. split; [tauto|lia].
 Qed.
 
-Definition RC_step_stmt := forall tab r o, RInv r -> rop_target o < length (rs_q r) ->
-  RInv (fst (rstep tab r o)) /\ length (rs_q (fst (rstep tab r o))) = length (rs_q r).
-Definition RC_run_stmt := forall tab n ops, Forall (fun o => rop_target o < n) ops -> RInv (rrun tab (rinit n) ops).
+(* fixrc = true (allocate-before-release, frag/C17.fix-10.diff): unconditional (rclean_fixed); fixrc = false (the body that
+   releases before _allocate can throw): for runs in which no resize / allocate request is refused (rclean) *)
+Definition RC_step_stmt := forall fixrc tab r o, RInv r -> rop_target o < length (rs_q r) -> rok fixrc tab r o ->
+  RInv (fst (rstep fixrc tab r o)) /\ length (rs_q (fst (rstep fixrc tab r o))) = length (rs_q r).
+Definition RC_run_stmt := forall fixrc tab n ops, Forall (fun o => rop_target o < n) ops -> rclean fixrc tab (rinit n) ops ->
+  RInv (rrun fixrc tab (rinit n) ops).
 (* after any sequence: the count of the block a variable points to = number of variables pointing to it; a block
    is on a free list iff its count is 0, never both handed out and on a list; no block twice on a list *)
-Definition RC_counts_stmt := forall tab n ops, Forall (fun o => rop_target o < n) ops ->
-  let r := rrun tab (rinit n) ops in
+Definition RC_counts_stmt := forall fixrc tab n ops, Forall (fun o => rop_target o < n) ops -> rclean fixrc tab (rinit n) ops ->
+  let r := rrun fixrc tab (rinit n) ops in
   (forall i p, getq r i = Some p -> rcnt r p = Z.of_nat (nq (rs_q r) p) /\ (forall idx, ~ In p (tabfree (rs_a r) idx)))
   /\ (forall p, p < a_next (rs_a r) -> (rcnt r p = 0%Z <-> In p (tabfree (rs_a r) (cls (rs_a r) p))))
   /\ (forall idx, NoDup (tabfree (rs_a r) idx)).
 
 Lemma RC_step_proof : RC_step_stmt.
 Proof. exact rstep_spec. Qed.
-Lemma rrun_inv tab n ops r : RInv r -> length (rs_q r) = n -> Forall (fun o => rop_target o < n) ops ->
-  RInv (rrun tab r ops) /\ length (rs_q (rrun tab r ops)) = n.
+Lemma rrun_inv fixrc tab n ops r : RInv r -> length (rs_q r) = n -> Forall (fun o => rop_target o < n) ops ->
+  rclean fixrc tab r ops ->
+  RInv (rrun fixrc tab r ops) /\ length (rs_q (rrun fixrc tab r ops)) = n.
 Proof.
-  intros I L F; revert r I L. induction F as [|o ops Ho F IH]; intros r I L; cbn; auto.
-  destruct (rstep_spec tab r o I ltac:(lia)) as [I1 L1]. apply IH; auto. lia.
+  intros I L F; revert r I L. induction F as [|o ops Ho F IH]; intros r I L C; cbn; auto.
+  cbn [rclean] in C. destruct C as [C1 C2].
+  destruct (rstep_spec fixrc tab r o I ltac:(lia) C1) as [I1 L1]. apply IH; auto. lia.
 Qed.
 Lemma RC_run_proof : RC_run_stmt.
-Proof. intros tab n ops F. destruct (RInv_init n) as [I L]. apply (rrun_inv tab n ops _ I L F). Qed.
+Proof. intros fixrc tab n ops F C. destruct (RInv_init n) as [I L]. apply (rrun_inv fixrc tab n ops _ I L F C). Qed.
 Lemma RC_counts_proof : RC_counts_stmt.
 Proof.
-  intros tab n ops F r. destruct (RInv_init n) as [I0 L0].
-  destruct (rrun_inv tab n ops _ I0 L0 F) as [(P & A & B & C) L]. fold r in P, A, B, C, L.
+  intros fixrc tab n ops F CL r. destruct (RInv_init n) as [I0 L0].
+  destruct (rrun_inv fixrc tab n ops _ I0 L0 F CL) as [(P & A & B & C) L]. fold r in P, A, B, C, L.
   split; [|split].
   - intros i p E.
     assert (Hi : i < length (rs_q r)).
@@ -482,4 +519,17 @@ Proof.
     + intros Z0. destruct (P5 p Hp) as [O|Fr]; auto. pose proof (A p O) as Ap. apply B in O. lia.
     + intros Fr. apply C. apply P3 in Fr. tauto.
   - destruct P as (_ & P2 & _). exact P2.
+Qed.
+
+(* the body that is in /repo (fixrc = true) and that the extracted driver runs: unconditional *)
+Definition RC_run_repaired_stmt := forall tab n ops, Forall (fun o => rop_target o < n) ops ->
+  let r := rrun true tab (rinit n) ops in
+  RInv r
+  /\ (forall i p, getq r i = Some p -> rcnt r p = Z.of_nat (nq (rs_q r) p) /\ (forall idx, ~ In p (tabfree (rs_a r) idx)))
+  /\ (forall p, p < a_next (rs_a r) -> (rcnt r p = 0%Z <-> In p (tabfree (rs_a r) (cls (rs_a r) p)))).
+Lemma RC_run_repaired_proof : RC_run_repaired_stmt.
+Proof.
+  intros tab n ops F r. pose proof (rclean_fixed tab (rinit n) ops) as C.
+  split; [exact (RC_run_proof true tab n ops F C)|].
+  destruct (RC_counts_proof true tab n ops F C) as (A & B & _). split; [exact A|exact B].
 Qed.
